@@ -51,7 +51,7 @@ Print Assumptions typep_agrees_with_subtypep_now.
 Theorem agreeing_kinds_now :
   filter (fun k => is_class classes (type_of_t kinds k)) (names kinds) =
   ["nil"; "fixnum"; "bignum"; "ratio"; "single-float"; "double-float"; "character"; "string"; "symbol"; "empty-list"; "list"; "cons";
-   "vector"].
+   "vector"; "octet"; "signed-byte"; "unsigned-byte"; "bit"; "long-float"; "complex"].
 Proof. vm_compute. reflexivity. Qed.
 Print Assumptions agreeing_kinds_now.
 
@@ -65,6 +65,19 @@ Theorem alias_types_now :
   subtypep_t classes "octet" "byte" = true /\ subtypep_t classes "fixnum" "byte" = false.
 Proof. vm_compute. repeat split; reflexivity. Qed.
 Print Assumptions alias_types_now.
+
+(* the other numeric kinds (octet, signed-byte, unsigned-byte, bit, long-float, complex) are among the kinds above:
+   Hierarchy() and the class precedence lists are two sources of truth, and they agree on them now, e.g. an octet
+   is neither typep nor subtypep of unsigned-byte, a bit and an unsigned-byte are both *)
+Theorem numeric_kinds_now :
+  typep_t kinds "octet" "unsigned-byte" = false /\ subtypep_t classes "octet" "unsigned-byte" = false /\
+  typep_t kinds "octet" "byte" = true /\ subtypep_t classes "octet" "integer" = true /\
+  typep_t kinds "bit" "unsigned-byte" = true /\ subtypep_t classes "bit" "unsigned-byte" = true /\
+  typep_t kinds "unsigned-byte" "signed-byte" = true /\ subtypep_t classes "unsigned-byte" "signed-byte" = true /\
+  typep_t kinds "signed-byte" "unsigned-byte" = false /\ subtypep_t classes "signed-byte" "unsigned-byte" = false /\
+  kind_agrees_but_t classes kinds "octet" = true /\ kind_agrees_but_t classes kinds "long-float" = true.
+Proof. vm_compute. repeat split; reflexivity. Qed.
+Print Assumptions numeric_kinds_now.
 
 (* outside that guard: t is a type of every object but not a class (known finding C16-t-is-not-a-class) *)
 Theorem typep_subtypep_t_refuted :
